@@ -535,3 +535,314 @@ Proof.
   - eapply seq_ok_budget; eauto.
   - unfold wave_ok in H. destruct (snap_budget size final) eqn:E; cbn [negb] in H; [apply snap_budget_spec; exact E | discriminate].
 Qed.
+
+(* ---------- the oracle as an equivalence (all clauses) ---------- *)
+Lemma nodupb_iff l : nodupb l = true <-> NoDup l.
+Proof.
+  split; [apply nodupb_spec|]. induction 1 as [|x l Hx _ IH]; cbn [nodupb]; [reflexivity|].
+  destruct (memN x l) eqn:E; [apply memN_spec in E; contradiction | exact IH].
+Qed.
+
+Lemma snap_budget_iff size s : snap_budget size s = true <-> snap_spec size s.
+Proof.
+  unfold snap_budget, snap_spec. rewrite !andb_true_iff, nodupb_iff, Z.leb_le, Z.eqb_eq. tauto.
+Qed.
+
+Lemma blob_eqb_spec a b : blob_eqb a b = true <-> a = b.
+Proof.
+  destruct a as [c1 v1], b as [c2 v2]. unfold blob_eqb. cbn [b_cap b_val].
+  rewrite andb_true_iff, Z.eqb_eq, N.eqb_eq. split; [intros [-> ->]; reflexivity | intro H; inversion H; auto].
+Qed.
+
+Lemma oblob_eqb_spec a b : oblob_eqb a b = true <-> a = b.
+Proof.
+  unfold oblob_eqb. destruct a as [x|], b as [y|]; cbn [option_eqb]; try (split; [discriminate | intro H; inversion H]); [|tauto].
+  rewrite blob_eqb_spec. split; [intros ->; reflexivity | intro H; inversion H; reflexivity].
+Qed.
+
+(* a blob legitimately produced for an id: added, or returned by a compute, by one of the ops *)
+Definition producedP (id : N) (b : blob) (ops : list op) : Prop :=
+  In (OAdd id b) ops \/ In (OGoc id (Some b)) ops.
+
+Lemma produced_iff id b ops : produced id b ops = true <-> producedP id b ops.
+Proof.
+  unfold producedP. induction ops as [|o ops IH]; cbn [produced In]; [split; [discriminate | tauto]|].
+  destruct o as [k x|k|k [x|]].
+  - destruct (andb (N.eqb k id) (blob_eqb x b)) eqn:E.
+    + apply andb_true_iff in E as [E1 E2]. apply N.eqb_eq in E1. apply blob_eqb_spec in E2. subst. tauto.
+    + rewrite IH. split; [tauto|]. intros [[H|H]|[H|H]]; try tauto; try discriminate.
+      inversion H; subst. rewrite N.eqb_refl, (proj2 (blob_eqb_spec b b) eq_refl) in E. discriminate.
+  - rewrite IH. split; [tauto|]. intros [[H|H]|[H|H]]; try tauto; discriminate.
+  - destruct (andb (N.eqb k id) (blob_eqb x b)) eqn:E.
+    + apply andb_true_iff in E as [E1 E2]. apply N.eqb_eq in E1. apply blob_eqb_spec in E2. subst. tauto.
+    + rewrite IH. split; [tauto|]. intros [[H|H]|[H|H]]; try tauto; try discriminate.
+      inversion H; subst. rewrite N.eqb_refl, (proj2 (blob_eqb_spec b b) eq_refl) in E. discriminate.
+  - rewrite IH. split; [tauto|]. intros [[H|H]|[H|H]]; try tauto; discriminate.
+Qed.
+
+(* what a lookup must return, given the entries the cache held just before *)
+Definition res_spec (prev : list (N * blob)) (o : op) (r : res) : Prop :=
+  match o, r with
+  | OAdd _ _, RAdd _ => True
+  | OGet id, RGet x => x = lookup id prev
+  | OGoc id out, RGoc x computed =>
+      match lookup id prev with
+      | Some b => x = Some b /\ computed = false
+      | None => x = out /\ computed = true
+      end
+  | _, _ => False
+  end.
+
+Lemma res_ok_iff prev o r : res_ok prev o r = true <-> res_spec prev o r.
+Proof.
+  destruct o as [k x|k|k out], r as [old|y|y c|]; cbn [res_ok res_spec]; try (split; [discriminate | tauto]); try tauto.
+  - apply oblob_eqb_spec.
+  - destruct (lookup k prev) as [b|]; rewrite andb_true_iff, oblob_eqb_spec; destruct c; cbn [negb]; intuition congruence.
+Qed.
+
+Fixpoint seq_spec (size : Z) (done : list op) (prev : list (N * blob)) (ops : list op)
+         (obs : list (res * snap)) : Prop :=
+  match ops, obs with
+  | [], [] => True
+  | o :: ops', (r, s) :: obs' =>
+      r <> RHang /\ snap_spec size s /\
+      (forall e, In e (s_ents s) -> producedP (fst e) (snd e) (o :: done)) /\
+      res_spec prev o r /\ seq_spec size (o :: done) (s_ents s) ops' obs'
+  | _, _ => False
+  end.
+
+Lemma ifneg (b : bool) (n x : nat) : n <> 0%nat ->
+  ((if negb b then n else x) = 0%nat <-> b = true /\ x = 0%nat).
+Proof. intro Hn. destruct b; cbn [negb]; split; try tauto; intros; try congruence. destruct H; discriminate. Qed.
+
+Lemma seq_ok_iff size : forall ops obs done prev,
+  seq_ok size done prev ops obs = 0%nat <-> seq_spec size done prev ops obs.
+Proof.
+  induction ops as [|o ops IH]; intros [|[r s] obs] done prev; cbn [seq_ok seq_spec]; try (split; [discriminate | tauto]); [tauto|].
+  assert (Hmain : (if negb (snap_budget size s) then 2%nat
+      else if negb (forallb (fun e => produced (fst e) (snd e) (o :: done)) (s_ents s)) then 3%nat
+      else if negb (res_ok prev o r) then 4%nat else seq_ok size (o :: done) (s_ents s) ops obs) = 0%nat <->
+      snap_spec size s /\ (forall e, In e (s_ents s) -> producedP (fst e) (snd e) (o :: done)) /\
+      res_spec prev o r /\ seq_spec size (o :: done) (s_ents s) ops obs).
+  { rewrite !ifneg by discriminate. rewrite snap_budget_iff, forallb_forall, res_ok_iff, IH.
+    split; intros (H1 & H2 & H3 & H4); (split; [exact H1|]; split; [|split; [exact H3 | exact H4]]);
+      intros e He; apply produced_iff; apply H2; exact He. }
+  destruct r; try (rewrite Hmain; split; [intros H; split; [discriminate | exact H] | tauto]).
+  split; [discriminate | intros [H _]; congruence].
+Qed.
+
+Lemma in_calls_iff (calls : list (N * option blob)) id x :
+  existsb (fun cl => andb (N.eqb (fst cl) id) (oblob_eqb (snd cl) x)) calls = true <-> In (id, x) calls.
+Proof.
+  rewrite existsb_exists. split.
+  - intros ([k y] & Hin & H). cbn [fst snd] in H. apply andb_true_iff in H as [H1 H2].
+    apply N.eqb_eq in H1. apply oblob_eqb_spec in H2. subst. exact Hin.
+  - intro Hin. exists (id, x). split; [exact Hin|]. cbn [fst snd]. rewrite N.eqb_refl. apply oblob_eqb_spec. reflexivity.
+Qed.
+
+(* a wave: budget of the final state; every cached blob and every returned blob was produced for
+   its id (prefill or a compute of a call for that id); an error is returned only if a call for
+   that id had a failing compute; every call returned *)
+Definition wave_spec (size : Z) (prefill : list op) (calls : list (N * option blob))
+           (results : list (option (option blob))) (final : snap) : Prop :=
+  snap_spec size final /\
+  (forall e, In e (s_ents final) -> producedP (fst e) (snd e) prefill \/ In (fst e, Some (snd e)) calls) /\
+  length results = length calls /\
+  forall cr, In cr (combine calls results) ->
+    match snd cr with
+    | None => False
+    | Some None => In (fst (fst cr), None) calls
+    | Some (Some b) => producedP (fst (fst cr)) b prefill \/ In (fst (fst cr), Some b) calls
+    end.
+
+Lemma wave_ok_iff size prefill calls results final :
+  wave_ok size prefill calls results final = 0%nat <-> wave_spec size prefill calls results final.
+Proof.
+  unfold wave_ok, wave_spec. rewrite !ifneg by discriminate.
+  rewrite snap_budget_iff, !forallb_forall, Nat.eqb_eq.
+  split; intros (H1 & H2 & H3 & H4); (split; [exact H1|]; split; [|split; [exact H3|]]).
+  - intros e He. specialize (H2 e He). apply orb_true_iff in H2 as [H2|H2]; [left; apply produced_iff; exact H2 | right; apply in_calls_iff; exact H2].
+  - destruct H4 as [H4 _]. intros cr Hcr. specialize (H4 cr Hcr). destruct (snd cr) as [[b|]|]; [|apply in_calls_iff; exact H4 | discriminate].
+    apply orb_true_iff in H4 as [H4|H4]; [left; apply produced_iff; exact H4 | right; apply in_calls_iff; exact H4].
+  - intros e He. apply orb_true_iff. destruct (H2 e He) as [H|H]; [left; apply produced_iff; exact H | right; apply in_calls_iff; exact H].
+  - split; [|reflexivity]. intros cr Hcr. specialize (H4 cr Hcr). destruct (snd cr) as [[b|]|]; [|apply in_calls_iff; exact H4 | contradiction].
+    apply orb_true_iff. destruct H4 as [H|H]; [left; apply produced_iff; exact H | right; apply in_calls_iff; exact H].
+Qed.
+
+Definition case_spec (c : case) : Prop :=
+  match c with
+  | CSeq size ops obs => seq_spec size [] [] ops obs
+  | CWave size prefill calls _ results _ final => wave_spec size prefill calls results final
+  end.
+
+Lemma check_C47_iff c : check_C47 c = true <-> case_spec c.
+Proof.
+  unfold check_C47. rewrite Nat.eqb_eq. destruct c; cbn [check_code case_spec]; [apply seq_ok_iff | apply wave_ok_iff].
+Qed.
+
+(* ---------- the model's own observations satisfy the oracle ---------- *)
+Definition snap_of (c : cache) : snap := mkS (c_free c) (c_lru c).
+Definition model_obs (c : cache) (ops : list op) : list (res * snap) :=
+  map (fun rc => (fst rc, snap_of (snd rc))) (snd (run c ops)).
+
+Lemma step_entries c o e : cinv c -> wf_op o -> In e (c_lru (fst (step c o))) ->
+  In e (c_lru c) \/ producedP (fst e) (snd e) [o].
+Proof.
+  intros HI Hw. unfold producedP. destruct o as [id b|id|id [b|]]; cbn [step wf_op] in *.
+  - destruct (add_inv c id b HI Hw) as (_ & _ & _ & H4 & _).
+    destruct (add c id b) as [c' [| |old|]]; cbn [fst snd] in *; intro H; destruct (H4 e H) as [->|H']; cbn [fst snd In]; auto.
+  - destruct (get c id) as [c' r] eqn:E. cbn [fst]. intro H. left. apply (get_lru_in c id). rewrite E. exact H.
+  - destruct (get_inv c id HI) as [H1 _]. pose proof (get_lru_in c id) as Hg.
+    destruct (get c id) as [c' [x|]]; cbn [fst snd] in *; [intro H; left; apply Hg; exact H|].
+    destruct (add_inv c' id b H1 Hw) as (_ & _ & _ & H4 & _).
+    destruct (add c' id b) as [c2 [| |old|]]; cbn [fst snd] in *; intro H; destruct (H4 e H) as [->|H']; cbn [fst snd In]; auto.
+  - pose proof (get_lru_in c id) as Hg. destruct (get c id) as [c' [x|]]; cbn [fst snd] in *; intro H; left; apply Hg; exact H.
+Qed.
+
+Lemma step_res c o : cinv c -> wf_op o -> res_spec (c_lru c) o (snd (step c o)).
+Proof.
+  intros HI Hw. destruct o as [id b|id|id out]; cbn [step wf_op] in *.
+  - destruct (add_inv c id b HI Hw) as (_ & _ & H3 & _).
+    destruct (add c id b) as [c' [| |old|]]; cbn [fst snd res_spec] in *; auto; congruence.
+  - pose proof (get_result c id) as Hg. destruct (get c id) as [c' r]. cbn [snd res_spec] in *. exact Hg.
+  - pose proof (get_result c id) as Hg. destruct (get_inv c id HI) as [H1 _].
+    destruct (get c id) as [c' [x|]]; cbn [fst snd] in *; [cbn [res_spec]; rewrite <- Hg; auto|].
+    destruct out as [b|]; [|cbn [snd res_spec]; rewrite <- Hg; auto].
+    destruct (add_inv c' id b H1 Hw) as (_ & _ & H3 & _).
+    destruct (add c' id b) as [c2 [| |old|]]; cbn [fst snd res_spec] in *; rewrite <- ?Hg; auto; congruence.
+Qed.
+
+Lemma producedP_mono id b o done : producedP id b done -> producedP id b (o :: done).
+Proof. unfold producedP. cbn [In]. tauto. Qed.
+
+Lemma model_seq_spec : forall ops c done, cinv c -> Forall wf_op ops ->
+  (forall e, In e (c_lru c) -> producedP (fst e) (snd e) done) ->
+  seq_spec (c_size c) done (c_lru c) ops (model_obs c ops).
+Proof.
+  induction ops as [|o ops IH]; intros c done HI Hw Hp; [exact I|].
+  inversion Hw as [|? ? Ho Hw']; subst.
+  unfold model_obs. cbn [run].
+  destruct (step_inv c o HI Ho) as (H1 & H2 & H3).
+  pose proof (step_entries c o) as He. pose proof (step_res c o HI Ho) as Hr.
+  destruct (step c o) as [c1 x] eqn:Es. cbn [fst snd] in *.
+  specialize (IH c1 (o :: done) H1 Hw'). unfold model_obs in IH.
+  destruct (run c1 ops) as [c2 xs]. cbn [snd map fst seq_spec snap_of s_ents] in *.
+  assert (Hp1 : forall e, In e (c_lru c1) -> producedP (fst e) (snd e) (o :: done)).
+  { intros e Hin. destruct (He e HI Ho Hin) as [H|H]; [apply producedP_mono, Hp; exact H|].
+    unfold producedP in *. cbn [In] in *. tauto. }
+  split; [exact H3|]. split.
+  - destruct H1 as [F1 F2 F3 F4]. unfold snap_spec. cbn [s_free s_ents]. rewrite <- H2. auto.
+  - split; [exact Hp1|]. split; [exact Hr|]. rewrite <- H2. apply IH. exact Hp1.
+Qed.
+
+Lemma model_satisfies_oracle size c0 ops : new size = Some c0 -> Forall wf_op ops ->
+  check_C47 (CSeq size ops (model_obs c0 ops)) = true.
+Proof.
+  intros Hn Hw. apply check_C47_iff. cbn [case_spec]. destruct (new_inv size c0 Hn) as [HI Hs].
+  assert (El : c_lru c0 = []) by (unfold new in Hn; destruct (max_entries size <=? 0); inversion Hn; reflexivity).
+  rewrite <- Hs, <- El. apply model_seq_spec; auto. rewrite El. intros e [].
+Qed.
+
+(* ---------- waves: the model's final observations satisfy the oracle ---------- *)
+Definition tinv2 (th : thread) : Prop :=
+  match t_pc th with PUnreg None | PClose None | PDone None => t_out th = None | _ => True end.
+
+Ltac thr_fin tac := eexists; (split; [reflexivity | split; [reflexivity | tac]]).
+
+Lemma tstep_thr g t g' : tstep g t = Some g' ->
+  exists th p, nth_error (g_thr g) t = Some th /\ g_thr g' = set_pc g t th p /\
+               (tinv2 th -> tinv2 (mkT (t_id th) (t_out th) p)).
+Proof.
+  unfold tstep. destruct (nth_error (g_thr g) t) as [th|] eqn:Hth; [|discriminate]. intro H. exists th.
+  unfold tinv2. destruct (t_pc th) as [| |o|own|own|own b|r|r|r] eqn:Epc.
+  - destruct (get (g_c g) (t_id th)) as [c' [b|]]; inversion H; subst g'; thr_fin ltac:(cbn; auto).
+  - destruct (lookup_ip (t_id th) (g_inprog g)); inversion H; subst g'; thr_fin ltac:(cbn; auto).
+  - destruct (memnat o (g_closed g)); inversion H; subst g'; thr_fin ltac:(cbn; auto).
+  - destruct (get (g_c g) (t_id th)) as [c' [b|]]; inversion H; subst g'; thr_fin ltac:(destruct own; cbn; auto).
+  - inversion H; subst g'. thr_fin ltac:(destruct (t_out th) eqn:Eo; destruct own; cbn [finish t_pc t_out]; auto).
+  - destruct (add (g_c g) (t_id th) b) as [c' r]. inversion H; subst g'. thr_fin ltac:(destruct own; cbn; auto).
+  - inversion H; subst g'. thr_fin ltac:(destruct r; cbn; auto).
+  - inversion H; subst g'. thr_fin ltac:(destruct r; cbn; auto).
+  - discriminate.
+Qed.
+
+Lemma sched_tinv2 s : forall g, (forall t th, nth_error (g_thr g) t = Some th -> tinv2 th) ->
+  forall t th, nth_error (g_thr (sched g s)) t = Some th -> tinv2 th.
+Proof.
+  induction s as [|t0 s IH]; intros g Hg; cbn [sched]; [exact Hg|]. apply IH.
+  destruct (tstep g t0) as [g'|] eqn:E; [|exact Hg].
+  destruct (tstep_thr g t0 g' E) as (th0 & p & Hth0 & Hthr & Hp). rewrite Hthr. unfold set_pc.
+  intros t th Hth. destruct (Nat.eq_dec t0 t) as [<-|Hne].
+  - rewrite (nth_error_upd_eq _ _ _ th0 Hth0) in Hth. inversion Hth; subst th. apply Hp. eapply Hg; eauto.
+  - rewrite nth_error_upd_neq in Hth by exact Hne. eapply Hg; eauto.
+Qed.
+
+Lemma combine_map {A B C} (f : A -> B) (g : A -> C) l :
+  combine (map f l) (map g l) = map (fun x => (f x, g x)) l.
+Proof. induction l as [|x l IH]; cbn [map combine]; [reflexivity | rewrite IH; reflexivity]. Qed.
+
+Lemma run_final : forall ops c done, cinv c -> Forall wf_op ops ->
+  (forall e, In e (c_lru c) -> producedP (fst e) (snd e) done) ->
+  cinv (fst (run c ops)) /\ c_size (fst (run c ops)) = c_size c /\
+  forall e, In e (c_lru (fst (run c ops))) -> producedP (fst e) (snd e) (ops ++ done).
+Proof.
+  induction ops as [|o ops IH]; intros c done HI Hw Hp; cbn [run app]; [auto|].
+  inversion Hw as [|? ? Ho Hw']; subst.
+  destruct (step_inv c o HI Ho) as (H1 & H2 & _). pose proof (step_entries c o) as He.
+  destruct (step c o) as [c1 x]. cbn [fst snd] in *.
+  destruct (IH c1 (o :: done) H1 Hw') as (I1 & I2 & I3).
+  { intros e Hin. destruct (He e HI Ho Hin) as [H|H]; [apply producedP_mono, Hp; exact H|].
+    unfold producedP in *. cbn [In] in *. tauto. }
+  destruct (run c1 ops) as [c2 xs]. cbn [fst] in *. split; [exact I1|]. split; [congruence|].
+  intros e Hin. specialize (I3 e Hin). unfold producedP in *. rewrite !in_app_iff in I3. cbn [In] in *. rewrite !in_app_iff. tauto.
+Qed.
+
+Lemma model_wave_satisfies_oracle size c00 prefill calls s :
+  new size = Some c00 -> Forall wf_op prefill -> (forall id b, In (id, Some b) calls -> wf_blob b) ->
+  let g := sched (ginit (fst (run c00 prefill)) calls) s in
+  (forall th, In th (g_thr g) -> exists r, t_pc th = PDone r) ->
+  check_C47 (CWave size prefill calls s (map thread_result (g_thr g)) [] (snap_of (g_c g))) = true.
+Proof.
+  intros Hn Hw Hc g Hdone. apply check_C47_iff. cbn [case_spec]. unfold wave_spec.
+  destruct (new_inv size c00 Hn) as [HI0 Hs0].
+  assert (El : c_lru c00 = []) by (unfold new in Hn; destruct (max_entries size <=? 0); inversion Hn; reflexivity).
+  destruct (run_final prefill c00 [] HI0 Hw) as (HI1 & Hs1 & Hp1); [rewrite El; intros e []|].
+  rewrite app_nil_r in Hp1.
+  assert (HG : ginv (fst (run c00 prefill)) calls g) by (unfold g; apply sched_inv; auto; apply ginit_inv; auto).
+  assert (Hprod : forall id b, prod (fst (run c00 prefill)) calls id b -> producedP id b prefill \/ In (id, Some b) calls).
+  { intros id b [H|H]; [left; apply (Hp1 (id, b)); exact H | right; exact H]. }
+  split; [|split; [|split]].
+  - pose proof (gi_c _ _ _ HG) as [F1 F2 F3 F4]. unfold snap_spec, snap_of. cbn [s_free s_ents].
+    rewrite (gi_size _ _ _ HG), Hs1, Hs0 in F2. auto.
+  - intros [id b] Hin. cbn [snap_of s_ents fst snd] in *. apply Hprod. apply (gi_lru _ _ _ HG). exact Hin.
+  - rewrite map_length, <- (gi_calls _ _ _ HG), map_length. reflexivity.
+  - intros cr Hcr. rewrite <- (gi_calls _ _ _ HG), combine_map in Hcr.
+    apply in_map_iff in Hcr as (th & <- & Hth). cbn [fst snd].
+    destruct (Hdone th Hth) as [r Hr]. unfold thread_result. rewrite Hr.
+    destruct (In_nth_error _ _ Hth) as [t Ht].
+    destruct r as [b|].
+    + apply Hprod. destruct (gi_thr _ _ _ HG t th Ht) as (Hv & _). apply Hv. rewrite Hr. reflexivity.
+    + assert (Ho : t_out th = None).
+      { pose proof (sched_tinv2 s (ginit (fst (run c00 prefill)) calls)) as H2. fold g in H2.
+        assert (Hi : tinv2 th); [|unfold tinv2 in Hi; rewrite Hr in Hi; exact Hi].
+        apply (H2) with (t := t); [|exact Ht].
+        intros t' th' H'. apply nth_error_In in H'. cbn [ginit g_thr] in H'. apply in_map_iff in H' as (x & <- & _).
+        unfold tinv2. cbn. exact I. }
+      pose proof (thread_call _ calls g t th HG Ht) as Hcall. rewrite Ho in Hcall. exact Hcall.
+Qed.
+
+(* non-vacuity of the wave theorem: a schedule after which all three calls have returned *)
+Example c47_wave_nonvacuous :
+  match new 300 with
+  | None => False
+  | Some c00 =>
+      let pre := [OAdd 1 (mkB 4 11); OAdd 2 (mkB 100 12)]%N in
+      let calls := [(7, None); (7, Some (mkB 4 71)); (7, Some (mkB 4 71))]%N in
+      let sch := [0; 0; 0; 1; 1; 2; 2; 0; 0; 0; 0; 1; 2; 1; 2; 1; 2; 1; 2; 1; 2; 1; 2]%nat in
+      let g := sched (ginit (fst (run c00 pre)) calls) sch in
+      forallb (fun th => match t_pc th with PDone _ => true | _ => false end) (g_thr g) = true /\
+      map thread_result (g_thr g) = [Some None; Some (Some (mkB 4 71)); Some (Some (mkB 4 71))] /\
+      length (g_computes g) = 3%nat /\
+      check_case (CWave 300 pre calls sch (map thread_result (g_thr g)) [(7, 3)]%N (snap_of (g_c g))) = 0%nat
+  end.
+Proof. vm_compute. repeat split. Qed.
